@@ -33,6 +33,8 @@ for f in sorted(glob.glob('specs/*.json')):
                 have.append(alt); changed = True
         if have:
             r['select_alt'] = have
+        if a.get('writes') and r.get('writes') != a['writes']:
+            r['writes'] = a['writes']; changed = True
     if changed:
         json.dump(d, open(f, 'w'), indent=1)
         print(f, 'updated')
